@@ -321,7 +321,9 @@ Definition constraint_match (c : constraint) (v : version) : res bool :=
             match v_ext v with
             | Pep440Ext (Some p) => Ok (p_dev p)
             | Pep440Ext None => Ok false
-            | _ => Panic PExplicit                     (* v.ext.( *pep440Extension ) *)
+            | _ => Ok false                            (* comma-ok assertion since fix 74fc0cd: a version of
+                                                          another system has no PEP 440 extension and is not a
+                                                          dev release (before: plain assertion, panic) *)
             end
           else Ok false);;
   if dev then Ok false else set_match_version (c_set c) v prerelease.
